@@ -56,7 +56,9 @@ func main() {
 		mu.Unlock()
 	}
 	program := func(prefix string, tok string, spin int) string {
-		return fmt.Sprintf("导入《@JSON》\n%s令计 = 0\n令典 = 【“a” = 1】\n每当计 < %d：\n\t计 = 计 + 1\n\t典#“k” = 计\n令文 =（生成JSON：典）\n输出“%s”\n", prefix, spin, tok)
+		// (every predefined / library function is called, 取随机数 several times per pass: what
+		// they share process-wide is exercised by all goroutines at once)
+		return fmt.Sprintf("导入《@JSON》\n%s令计 = 0\n令典 = 【“a” = 1】\n令随 = 0\n每当计 < %d：\n\t计 = 计 + 1\n\t典#“k” = 计\n\t随 = 随 +（取随机数）+（取随机数）\n令文 =（生成JSON：典）\n令回 =（解析JSON：文）\n输出“%s”\n", prefix, spin, tok)
 	}
 	switch *mode {
 	case "playground":
